@@ -53,6 +53,16 @@ pub struct UPad {
     pub v: FlatVec<u8, u16>,
 }
 
+/// unsized struct with four fields whose C offsets all need rounding up (1 -> 4, 9 -> 16): every step of the generated
+/// offset fold (`fold_size!` with a non-zero accumulator, the last field's own alignment) is exercised
+#[flat(sized = false, default = true)]
+pub struct UWide {
+    pub a: u8,
+    pub b: u32,
+    pub c: u8,
+    pub v: FlatVec<u64, u32>,
+}
+
 #[flat(sized = false, default = true)]
 pub enum UEnum {
     #[default]
